@@ -85,6 +85,8 @@ func (r *nodeRun) submit(c *cluster, n *vnode, res ctypes.Operation, kind string
 	outcome := "ok"
 	if panicked {
 		outcome = "panic"
+		r.st.Panics++
+		r.mon(fmt.Sprintf("C18 never_panics: ProcessOperation (a request body on the local API) panicked on a submission of kind %s for an operation of type %s with event %q", kind, res.Type, res.Event))
 	} else if err != nil {
 		outcome = "reject"
 	}
@@ -117,6 +119,14 @@ func (r *nodeRun) answerObserved(c *cluster, n *vnode) int {
 				if p.ID == cold.ID {
 					idx = fmt.Sprint(i)
 				}
+			}
+			// the invitation handed in as a result file of a finished re-initialisation (the one event that makes the node
+			// write into the round instead of posting): the round has no key-generation part yet
+			{
+				probe := cold
+				probe.Event = ctypes.OperationProcessed
+				probe.ExtraData = []byte("no polynomial")
+				r.submit(c, n, probe, "invitation-as-processed")
 			}
 			// a wrong id first
 			if r.rng.Intn(2) == 0 {
